@@ -351,6 +351,10 @@ type harnessCfg struct {
 	// native run cannot steer; a candidate is confirmed when any of several native
 	// runs fails (in whatever way the order at hand produces).
 	OrderDependent bool `json:"order_dependent"`
+	// Race: candidates of this harness are lock-discipline violations that need not
+	// change any result; they are confirmed by running the native replay under
+	// `go test -race` and seeing the race detector report a data race.
+	Race bool `json:"race"`
 }
 
 type propCfg struct {
@@ -654,6 +658,8 @@ type nativeOutcome struct {
 }
 
 // runNative runs cases through `go test` on the real build of pkg (harness dir name).
+var nativeRace bool
+
 func runNative(ov *overlaySet, pkg string, cases []nativeCase, timeout time.Duration) ([]nativeOutcome, string, error) {
 	tmp, err := os.MkdirTemp("", "verif-native")
 	if err != nil {
@@ -664,8 +670,12 @@ func runNative(ov *overlaySet, pkg string, cases []nativeCase, timeout time.Dura
 	of := filepath.Join(tmp, "out.txt")
 	js, _ := json.Marshal(cases)
 	os.WriteFile(cf, js, 0644)
-	cmd := exec.Command("go", "test", "-tags", "verif", "-vet=off", "-count=1", "-overlay", filepath.Join(ov.tmp, "overlay.json"),
-		"-run", "TestVerifReplay$", "-timeout", fmt.Sprintf("%ds", int(timeout.Seconds())), "./"+pkgDirs[pkg])
+	args := []string{"test", "-tags", "verif", "-vet=off", "-count=1", "-overlay", filepath.Join(ov.tmp, "overlay.json"),
+		"-run", "TestVerifReplay$", "-timeout", fmt.Sprintf("%ds", int(timeout.Seconds()))}
+	if nativeRace {
+		args = append(args, "-race")
+	}
+	cmd := exec.Command("go", append(args, "./"+pkgDirs[pkg])...)
 	cmd.Dir = repoDir
 	cmd.Env = append(os.Environ(), "GOFLAGS=-mod=mod", "GOPROXY=off", "GOSUMDB=off", "GOTOOLCHAIN=local",
 		"VERIF_REPLAY="+cf, "VERIF_OUT="+of)
@@ -683,6 +693,51 @@ func runNative(ov *overlaySet, pkg string, cases []nativeCase, timeout time.Dura
 		}
 	}
 	return outs, string(outb), runErr
+}
+
+func raceHarness(cfgs map[string]propCfg, name string) bool {
+	for _, p := range cfgs {
+		for _, h := range p.Harnesses {
+			if h.Name == name && h.Race {
+				return true
+			}
+		}
+	}
+	return false
+}
+
+// confirmRace replays the candidate natively under the race detector.
+func confirmRace(ov *overlaySet, pkg string, v *interp.Violation, params map[string]int) (bool, string) {
+	nativeRace = true
+	defer func() { nativeRace = false }()
+	c := nativeCase{Harness: v.Harness, Inputs: v.Inputs, Choices: v.Choices, Params: params}
+	for try := 0; try < 2; try++ {
+		outs, raw, _ := runNative(ov, pkg, []nativeCase{c, c}, 180*time.Second)
+		if strings.Contains(raw, "WARNING: DATA RACE") {
+			return true, "go test -race reports a data race on the native replay: " + raceSummary(raw)
+		}
+		for _, o := range outs {
+			if o.Status == "assert" {
+				for _, f := range o.Failed {
+					if f == v.ID {
+						return true, "native run fails assertion " + f
+					}
+				}
+			}
+		}
+	}
+	return false, "no data race reported natively"
+}
+
+func raceSummary(raw string) string {
+	var fns []string
+	for _, l := range strings.Split(raw, "\n") {
+		l = strings.TrimSpace(l)
+		if strings.HasPrefix(l, "github.com/mk6i/mkdb/") && strings.HasSuffix(l, ")") && len(fns) < 4 {
+			fns = append(fns, l)
+		}
+	}
+	return strings.Join(fns, " | ")
 }
 
 func orderDependent(cfgs map[string]propCfg, name string) bool {
@@ -963,6 +1018,11 @@ func checkMain(prop, tier string) int {
 			var msg string
 			if orderDependent(cfgs, v.Harness) {
 				ok, msg = confirmRetry(ov, pkgOfHarness(cfgs, v.Harness), v, g.prm, 3)
+			} else if raceHarness(cfgs, v.Harness) && v.Kind == "assert" && strings.Contains(v.ID, "lock") {
+				ok, msg = confirm(ov, pkgOfHarness(cfgs, v.Harness), v, g.prm)
+				if !ok {
+					ok, msg = confirmRace(ov, pkgOfHarness(cfgs, v.Harness), v, g.prm)
+				}
 			} else {
 				ok, msg = confirm(ov, pkgOfHarness(cfgs, v.Harness), v, g.prm)
 			}
